@@ -40,6 +40,10 @@ namespace sqf::opcodes
             else if (right_value->is<sqf::types::t_nothing>())
             {
                 vm.__logmsg(logmessage::runtime::NilValueFoundForRightArgumentWeak(diag_info()));
+                // The expression still consumes both of its operands and yields one value (nil),
+                // so that the operands of the enclosing expression stay where they are.
+                vm.context_active().pop_value();
+                context.push_value({});
                 return;
             }
 
@@ -61,6 +65,7 @@ namespace sqf::opcodes
             else if (left_value->is<sqf::types::t_nothing>())
             {
                 vm.__logmsg(logmessage::runtime::NilValueFoundForRightArgumentWeak(diag_info()));
+                context.push_value({});
                 return;
             }
 
